@@ -70,7 +70,7 @@ def check_C13(c):
             mk = dict(model='custom', mdl=c.rng.choice(CUSTOM + CHAINS))
         else:
             mk = dict(model=c.rng.choice(['default', 'amr', 'noop', 'miniamr']))
-        jobs.append(('tr_canontree', dict(node=jn, meta=meta, **mk)))
+        jobs.append(('tr_canontree', dict(node=jn, meta=meta, shape='list' if len(jobs) % 13 == 5 else None, **mk)))
     traces = pmake(jobs, optimized_share=0.02)
     c.judge('J_Model', traces, 'roles', nontrivial=lambda t: t['kind'] == 'canontree' or len(t['role']) > 1)
     c.rule = ('role = base + k x "-of", k in 0..4, bases from model-defined roles (literal and pattern), roles ending in -of by '
